@@ -210,7 +210,10 @@ def strata(tier):
                     yield {"rule": {"path": PC.mkpath(rpath), "cond": cond, "cast": cast}, "doc": doc, "via": via,
                            "pos": "list-item" if fn == "in_" else "positional", "pcls": "concrete"}
     # escaped literal mappings
-    for j, lit in enumerate([{"path": ["a"]}, {"path": 3}, {"path.length": ["a"]}, {"path": ["a"], "b": 1}, {"Path": ["a"]},
+    for j, lit in enumerate([{"kind": "ref", "path": ["a", "b"]}, {"a": 1, "Path.length": 2, "z": 0}, {"path": ["a"], "kind": "ref"},
+                             {"k": 0, "path": ["a"], "PATH.first": 3}, {"kind": "r%d" % 1, "path": 3}, {"x": [1], "path": {"path": 1}},
+                             {"kind": "ref2", "path": ["a", "b"]}, {"kind": "ref3", "path": ["a", "b"]}, {"kind": "ref4", "path": ["a", "b"]},
+                             {"path": ["a"]}, {"path": 3}, {"path.length": ["a"]}, {"path": ["a"], "b": 1}, {"Path": ["a"]},
                              {"PATH.First": 1}, {"pAtH.length": ["a"]}, {"path.map_keys": 1}, {"path.first.map_values": ["a_b"]}]):
         for fn in ("equal_to", "in_"):
             doc = {"a": lit, "b": 3, "c": {"path": ["zz"]}, "d": {k.lower(): v for k, v in lit.items()}}
@@ -267,7 +270,8 @@ def build_rule(rterm, via):
     import valida
     if via == "dsl":
         return build.rule_obj(rterm)
-    spec = build.rule_spec(rterm)
+    import random, zlib
+    spec = build.rule_spec(rterm, build.Spelling(random.Random(zlib.crc32(repr(rterm).encode()))))
     with warnings.catch_warnings():
         warnings.simplefilter("ignore")
         return valida.Rule.from_spec(spec)
